@@ -249,7 +249,7 @@ def correspondence(ctx):
     if env[2]:
         c.error = "statements the model has a step for were not found by shape: %s" % ", ".join(env[2])
         return c
-    t_end = time.time() + ctx.budget(48, 720)
+    t_end = time.time() + ctx.budget(52, 720)
     rng = Rng(ctx.seed).fork("c13")
     exhaustive = {}
     try:
